@@ -5,10 +5,14 @@ import (
 	"io"
 	"net"
 	"sync"
+	"time"
 )
 
 // C13(a) — reference counting of handles handed out for one ufrag.
-func init() { verifRegister("verifC13AbortInterleaved", verifC13AbortInterleaved) }
+func init() {
+	verifRegister("verifC13AbortInterleaved", verifC13AbortInterleaved)
+	verifRegister("verifC13PendingRead", verifC13PendingRead)
+}
 
 func verifC13Refcount() {
 	m, sock := verifNewMux()
@@ -196,5 +200,54 @@ func verifC13AbortInterleaved() {
 	sock.blockTag = 0
 	_, err3 := m.writeTo([]byte{0x03}, peer)
 	verifAssert(err3 == nil, "later-writes-by-any-user-succeed")
+	verifReach("done")
+}
+
+// C13(a') — closing one handle fails that handle's own PENDING read and leaves
+// the sibling's pending read alone, with or without a read deadline armed on
+// the closed handle, under explored interleavings of the reader and the closer.
+func verifC13PendingRead() {
+	m, sock := verifNewMux()
+	hA, errA := m.GetConn("u0", sock.local)
+	hB, errB := m.GetConn("u0", sock.local)
+	verifAssert(errA == nil && errB == nil, "GetConn-ok")
+	under := verifUnderlying(hA)
+	peer := verifMuxAddrs[0]
+	switch verifChoice(3) {
+	case 1: // a read deadline far in the future on the handle that will be closed
+		verifAssert(hA.SetReadDeadline(verifNow().Add(time.Hour)) == nil, "SetReadDeadline-ok")
+		verifReach("deadline-armed")
+	case 2: // ... or on the sibling
+		verifAssert(hB.SetReadDeadline(verifNow().Add(time.Hour)) == nil, "SetReadDeadline-ok")
+	}
+	var wg sync.WaitGroup
+	var nA int
+	var rerrA error
+	wg.Add(1)
+	go func() {
+		defer wg.Done()
+		nA, _, rerrA = hA.ReadFrom(make([]byte, 4))
+	}()
+	closeOwn := verifChoice(2) == 0
+	if closeOwn {
+		// A is closed while its read is pending (or about to start); B stays open
+		verifAssert(hA.Close() == nil, "close-returns-nil")
+		wg.Wait() // a read that never returns is a deadlock outcome
+		verifReach("own-close")
+		verifAssert(rerrA != nil && nA == 0, "closing-a-handle-fails-its-own-pending-read")
+		verifAssert(!under.closed, "sibling-keeps-the-underlying-open")
+		verifAssert(under.writePacket([]byte{7}, peer.AddrPort(), peer) == nil, "queue-packet")
+		buf := make([]byte, 4)
+		nB, _, rerrB := hB.ReadFrom(buf)
+		verifAssert(rerrB == nil && nB == 1 && buf[0] == 7, "sibling-still-reads")
+	} else {
+		// the sibling is closed: A's pending read is not disturbed and gets the next packet
+		verifAssert(hB.Close() == nil, "close-returns-nil")
+		verifAssert(!under.closed, "the-reader's-handle-keeps-the-underlying-open")
+		verifAssert(under.writePacket([]byte{8}, peer.AddrPort(), peer) == nil, "queue-packet")
+		wg.Wait()
+		verifReach("sibling-close")
+		verifAssert(rerrA == nil && nA == 1, "closing-a-sibling-does-not-disturb-a-pending-read")
+	}
 	verifReach("done")
 }
